@@ -459,25 +459,30 @@ def tfi_wiring(prog, _):
     return finish(res, I, S, t0)
 
 
-def astro_new_total(prog, _):
-    """Astro::new(jd) is total on the property's date range: for every real Julian Day in [2305440, 2597650] (1599-12-25 .. 2400-01-05,
-    any GMT offset) no path panics (index, unwrap, overflow, cast), exceeds the loop bound or uses an unmodelled construct; the series
-    tables are iterated in full. (Accuracy of the value is NOT part of this obligation.)"""
-    t0 = time.time()
-    res = new_res("Astro::new is total (no panic / unbounded loop) for every Julian Day of 1600..2399", ["Astro::new", "Astro::calc_sum", "Astro::pow_series"])
+def _run_astro_new(prog):
     S = smt.Smt()
     I = interp.Interp(prog, mode="sym", smt=S, max_unroll=200)
     st = interp.State()
     jd = z3.Real("jd")
     st.add([jd >= 2305440, jd <= 2597650])
+    outs = I.run_body(prog.find_body("Astro::new"), [jd], st=st)
+    return S, I, jd, outs
+
+
+def astro_new_total(prog, _, run=None):
+    """Astro::new(jd) is total on the property's date range: for every real Julian Day in [2305440, 2597650] (1599-12-25 .. 2400-01-05,
+    any GMT offset) no path panics (index, unwrap, overflow, cast), exceeds the loop bound or uses an unmodelled construct; the series
+    tables are iterated in full. (Accuracy of the value is NOT part of this obligation.)"""
+    t0 = time.time()
+    res = new_res("Astro::new is total (no panic / unbounded loop) for every Julian Day of 1600..2399", ["Astro::new", "Astro::calc_sum", "Astro::pow_series"])
+    S, I, jd, outs = run or _run_astro_new(prog)
 
     def mf(m):
         return {"jd": mval(m, jd)}
-    outs = I.run_body(prog.find_body("Astro::new"), [jd], st=st)
     for o in outs:
         res["paths"] += 1
         if o.kind == "panic":
-            r, m = S.check(o.st.pc, timeout_ms=30000, want_model=True)
+            r, m = S.check(_light_pc(o.st.pc), timeout_ms=30000, want_model=True)
             res["queries"] += 1
             if r == "sat":
                 res["cands"].append({"what": "Astro::new panics: %s" % str(o.info)[:200], "inputs": mf(m), "astro_jd": True})
@@ -523,3 +528,226 @@ def from_ad_total(prog, _):
         if not ok:
             res["cands"].append({"what": "from_ad does not return a TopAstroDay with the given coordinates and three positions", "inputs": {}})
     return finish(res, I, S, t0)
+
+
+def sidereal_spec(prog, _, run=None):
+    """Astro::new(jd).sid_time for every real Julian Day of 1600..2399: congruent (mod 360) to the mean sidereal time at Greenwich
+    280.46061837 + 360.98564736629 (jd - 2451545) within 0.02 deg (the T^2/T^3 terms, <= 0.0066 deg, and the nutation in right
+    ascension, <= 0.006 deg by interval analysis of the 63-term series with |sin|,|cos| <= 1, are inside the tolerance), and in
+    [-0.01, 360.01]. Decided in linear arithmetic after a sound interval abstraction of the nutation term."""
+    t0 = time.time()
+    res = new_res("Astro::new: sid_time = 280.46061837 + 360.98564736629 (jd - 2451545) (mod 360) within 0.02 deg, every jd of 1600..2399",
+                  ["Astro::new", "Astro::calc_psi_eps", "LimitAngle::cap_angle_360"])
+    S, I, jd, outs = run or _run_astro_new(prog)
+    names = I.prog.structs["Astro"]
+    TOL = Fraction(2, 100)
+
+    def mf(m):
+        return {"jd": mval(m, jd)}
+    for o in outs:
+        res["paths"] += 1
+        if o.kind != "return":
+            if o.kind == "panic":
+                continue           # totality is astro_new_total's subject
+            res["inconclusive"].append("%s: %s" % (o.kind, str(o.info)[:150]))
+            continue
+        sid = to_z3(o.value.fields[names.index("sid_time")])
+        env = {"jd": (Fraction(2305440), Fraction(2597650))}
+        smt.propagate_defs(o.st.pc, env)
+        # split sid into its linear part and the part that interval analysis bounds (nutation term: products with UF applications)
+        terms = list(sid.children()) if sid.decl().kind() == z3.Z3_OP_ADD else [sid]
+        lin, small, bound_lo, bound_hi = [], [], Fraction(0), Fraction(0)
+        for t in terms:
+            has_uf = any(nm.startswith("rs_") for nm in _decl_names(t))
+            if has_uf:
+                lo, hi = smt.enclosure(t, env)
+                if lo is None or hi is None:
+                    res["inconclusive"].append("unbounded summand of sid_time: %s" % str(t)[:120])
+                    lin = None
+                    break
+                bound_lo, bound_hi = bound_lo + lo, bound_hi + hi
+                small.append(t)
+            else:
+                lin.append(t)
+        if lin is None:
+            continue
+        res["notes"].append("nutation-in-RA summand enclosed in [%.5f, %.5f] deg by interval analysis" % (float(bound_lo), float(bound_hi)))
+        N = z3.Real("sid_small")
+        core = z3.Sum(lin) if len(lin) > 1 else (lin[0] if lin else z3.RealVal(0))
+        oracle = z3.RealVal("280.46061837") + z3.RealVal("360.98564736629") * (jd - 2451545)
+        R = core + N - oracle
+        # constraints that define the abbreviations occurring in `core` (cap_angle, its floor, the T^2/T^3 monomials abstracted)
+        rel = _relevant(o.st.pc, core)
+        lin_rel, extra = _abstract_nonlinear(rel, env)
+        # the whole number of turns: one of the floor constants of the computation (+-1) - a finite candidate set instead of a
+        # quantified integer (sound for proving: if every candidate fails the tolerance the query is sat and goes to the native judge)
+        fl = sorted({n for c in extra for n in _decl_names(c) if n.startswith("flr!")})
+        turns = [z3.IntVal(0)] + [sg * z3.Int(n) + d for n in fl for sg in (1, -1) for d in (0, 1, -1)]
+        q = lin_rel + extra + [N >= bound_lo, N <= bound_hi,
+                               z3.Or(z3.And([z3.Or(R - 360 * kc > TOL, R - 360 * kc < -TOL) for kc in turns]),
+                                     core + N < -Fraction(1, 100), core + N > 360 + Fraction(1, 100))]
+        r, m = S.check(q, timeout_ms=60000, want_model=True)
+        res["queries"] += 1
+        if r == "sat":
+            res["cands"].append({"what": "sidereal time differs from the mean sidereal time formula by more than 0.02 deg (mod 360) or leaves [0,360]",
+                                 "inputs": mf(m), "sid_jd": True})
+        elif r == "unknown":
+            res["inconclusive"].append("sidereal-time query undecided")
+    if not any(o.kind == "return" for o in outs):
+        res["inconclusive"].append("vacuous: no returning path")
+    res["witness"] = sum(1 for o in outs if o.kind == "return")
+    return finish(res, I, S, t0)
+
+
+def _light_pc(pc):
+    """The branch conditions of a path without the definitional equalities of abbreviations (always satisfiable, but enormous for the
+    series sums): feasibility of the path is decided on the conditions over the inputs."""
+    return [c for c in pc if isinstance(c, bool) or not (z3.is_eq(c) and c.arg(0).num_args() == 0 and "!" in c.arg(0).decl().name())] + \
+           [c for c in pc if not isinstance(c, bool) and z3.is_eq(c) and c.arg(0).num_args() == 0 and "!" in c.arg(0).decl().name()
+            and not any(n.startswith("rs_") for n in _decl_names(c)) and len(str(c.sexpr())) < 4000]
+
+
+def astro_ranges(prog, _, run=None):
+    """The geocentric part of the EPH envelope that every kernel obligation assumes, proved for Astro::new by interval analysis over the
+    symbolically executed series (|sin|,|cos| <= 1, monotone enclosures of sin/cos/asin on narrow arguments): Sun-Earth distance in
+    [0.98, 1.02] AU, |declination| <= 0.4115 rad (23.58 deg), right ascension in [0, 360]."""
+    t0 = time.time()
+    res = new_res("Astro::new: distance in [0.98,1.02] AU, |declination| <= 23.58 deg, right ascension in [0,360], every jd of 1600..2399",
+                  ["Astro::new", "Astro::calc_sum", "Astro::calc_psi_eps"])
+    S, I, jd, outs = run or _run_astro_new(prog)
+    names = I.prog.structs["Astro"]
+
+    def mf(m):
+        return {"jd": mval(m, jd)}
+    for o in outs:
+        res["paths"] += 1
+        if o.kind != "return":
+            if o.kind != "panic":
+                res["inconclusive"].append("%s: %s" % (o.kind, str(o.info)[:150]))
+            continue
+        env = {"jd": (Fraction(2305440), Fraction(2597650))}
+        smt.propagate_defs(o.st.pc, env)
+        f = {n: to_z3(o.value.fields[names.index(n)]) for n in ("rsum", "dec", "ra")}
+        enc = {n: smt.enclosure(t, env) for n, t in f.items()}
+        if res["paths"] == 1:
+            res["notes"].append("enclosures: rsum %s, dec %s rad" % tuple("[%.5f, %.5f]" % (float(a), float(b)) if a is not None and b is not None else "unbounded"
+                                                                        for a, b in (enc["rsum"], enc["dec"])))
+        for n, lo, hi in (("rsum", Fraction(98, 100), Fraction(102, 100)), ("dec", -Fraction(4115, 10000), Fraction(4115, 10000))):
+            a, b = enc[n]
+            if a is None or b is None or a < lo or b > hi:
+                res["cands"].append({"what": "interval analysis cannot confine %s to [%s, %s]: enclosure %s" % (n, float(lo), float(hi), (a and float(a), b and float(b))),
+                                     "inputs": {}, "astro_range": n})
+        # right ascension: the result of cap_angle -> linear arithmetic with explicit floor
+        rel = _relevant(o.st.pc, f["ra"])
+        lin_rel, extra = _abstract_nonlinear(rel, env)
+        r, m = S.check(lin_rel + extra + [z3.Or(f["ra"] < -Fraction(1, 10**9), f["ra"] > 360 + Fraction(1, 10**9))], timeout_ms=30000, want_model=True)
+        res["queries"] += 1
+        if r == "sat":
+            res["cands"].append({"what": "right ascension outside [0,360]", "inputs": mf(m) if m is not None else {}, "astro_range": "ra"})
+        elif r == "unknown":
+            res["inconclusive"].append("right-ascension range undecided")
+    # one candidate per role is enough
+    seen, uniq = set(), []
+    for c in res["cands"]:
+        if c.get("astro_range") not in seen:
+            seen.add(c.get("astro_range"))
+            uniq.append(c)
+    res["cands"] = uniq
+    res["witness"] = sum(1 for o in outs if o.kind == "return")
+    return finish(res, I, S, t0)
+
+
+def astro_new_obls(prog, _):
+    """Both obligations about Astro::new from one symbolic run (the run itself takes ~100 s)."""
+    run = _run_astro_new(prog)
+    a = astro_new_total(prog, None, run)
+    b = sidereal_spec(prog, None, run)
+    c = astro_ranges(prog, None, run)
+    return [a, b, c]
+
+
+def _decl_names(t, seen=None, out=None):
+    seen = set() if seen is None else seen
+    out = set() if out is None else out
+    stack = [t]
+    while stack:
+        e = stack.pop()
+        i = e.get_id()
+        if i in seen:
+            continue
+        seen.add(i)
+        if z3.is_app(e):
+            out.add(e.decl().name())
+            stack.extend(e.children())
+    return out
+
+
+def _relevant(pc, term):
+    """Definitions (`v == ...`) of the abbreviation constants (names containing '!') transitively reachable from `term`. Branch
+    conditions are left out: that only enlarges the set of inputs considered on the path (sound for proving)."""
+    want = {n for n in _decl_names(term) if "!" in n}
+    defs = {}
+    for c in pc:
+        if not isinstance(c, bool) and z3.is_eq(c) and c.arg(0).num_args() == 0 and "!" in c.arg(0).decl().name():
+            defs.setdefault(c.arg(0).decl().name(), c)
+    chosen, todo, seen = [], list(want), set()
+    while todo:
+        n = todo.pop()
+        if n in seen or n not in defs:
+            continue
+        seen.add(n)
+        c = defs[n]
+        chosen.append(c)
+        for m in _decl_names(c.arg(1)):
+            if "!" in m and m not in seen and not m.startswith("rs_"):
+                todo.append(m)
+    # branch conditions / range constraints over the inputs and the chosen abbreviations only (no libm application)
+    BUILTIN = {"+", "-", "*", "/", "=", "<=", ">=", "<", ">", "and", "or", "not", "if", "to_real", "to_int", "Int", "Real", "true", "false", "distinct", "=>"}
+    for c in pc:
+        if isinstance(c, bool) or (z3.is_eq(c) and c.arg(0).num_args() == 0 and "!" in c.arg(0).decl().name()):
+            continue
+        ns = _decl_names(c)
+        if any(n.startswith("rs_") for n in ns):
+            continue
+        vs = {n for n in ns if n not in BUILTIN and not n.replace(".", "").replace("-", "").replace("/", "").isdigit()}
+        if all(("!" not in n) or (n in seen) for n in vs):
+            chosen.append(c)
+    return chosen
+
+
+def _abstract_nonlinear(cs, env):
+    """Replace every product of >= 2 non-constant factors (and every UF application) by a fresh constant enclosed by interval analysis."""
+    memo, extra = {}, []
+    cs = [z3.simplify(c) for c in cs]
+
+    def walk(e):
+        i = e.get_id()
+        if i in memo:
+            return memo[i]
+        r = e
+        if z3.is_app(e) and e.num_args() > 0:
+            k = e.decl().kind()
+            if k == z3.Z3_OP_TO_INT:
+                # floor as an explicit integer constant with its defining inequalities
+                inner = walk(e.arg(0))
+                f = z3.Int("flr!%d" % len(extra))
+                extra.extend([z3.ToReal(f) <= inner, inner < z3.ToReal(f) + 1])
+                memo[i] = f
+                return f
+            nonconst = [c for c in e.children() if smt._num(c) is None]
+            if (k == z3.Z3_OP_MUL and len(nonconst) >= 2) or e.decl().name().startswith("rs_") or \
+                    (k == z3.Z3_OP_DIV and smt._num(e.arg(1)) is None):
+                v = z3.Real("abs!%d" % len(extra))
+                lo, hi = smt.enclosure(e, env)
+                if lo is not None:
+                    extra.append(v >= lo)
+                if hi is not None:
+                    extra.append(v <= hi)
+                if lo is None and hi is None:
+                    extra.append(v == v)
+                r = v
+            else:
+                r = e.decl()(*[walk(c) for c in e.children()])
+        memo[i] = r
+        return r
+    return [walk(c) for c in cs], extra
